@@ -26,6 +26,8 @@ SumSeq(f, n) == IF n = 0 THEN 0 ELSE f[n] + SumSeq(f, n - 1)
 (* ------------------------------- P ------------------------------------- *)
 (* kinds of observable events: "next" (a selection, with the selected message), perturbations        *)
 PertKinds == {"setprio", "addback", "addfront", "conduse", "readd"}
+(* "reload" (all messages new) and "otherclear" (another MessageMap instance cleared/reloaded/destroyed: no event of this map,
+   its obligations run on unchanged) are handled separately *)
 
 (* prio: sequence of public priorities (0 = not polled)                                              *)
 Active(prio) == {m \in 1..Len(prio) : prio[m] > 0}
@@ -90,6 +92,11 @@ MonPerturb(mon, kind, who, prio, K) ==
    cnt |-> TLCEval([m \in DOMAIN mon.cnt |-> 0]),
    mx |-> MxStep(mon, prio, IF kind = "readd" THEN who ELSE 0), lo |-> LoStep(mon, prio, IF kind = "readd" THEN who ELSE 0),
    hi |-> Max2(mon.hi, MaxPrio(prio))]
+
+(* a reload of the map: every message is a new message *)
+MonReload(mon, prio) ==
+  [wait |-> TLCEval([m \in DOMAIN mon.wait |-> 0]), pert |-> TLCEval([m \in DOMAIN mon.pert |-> 0]), cnt |-> TLCEval([m \in DOMAIN mon.cnt |-> 0]),
+   mx |-> prio, lo |-> prio, hi |-> Max2(mon.hi, MaxPrio(prio))]
 
 WaitOk(mon, prio, K) == \A m \in Active(prio) : mon.pert[m] <= K => mon.wait[m] <= WaitBound(m, prio, mon.pert[m], MxStep(mon, prio, 0), LoStep(mon, prio, 0), Max2(mon.hi, MaxPrio(prio)))
 PropOk(mon, prio) == \A m, k \in Active(prio) : mon.cnt[m] - mon.cnt[k] <= PropBound(prio, Max2(mon.hi, MaxPrio(prio)))
@@ -180,13 +187,24 @@ ReAddF(s, m, p0, pinned) ==
 TickF(s, d) == [s EXCEPT !.now = s.now + d]
 
 T0 == 1000          \* clock values are >= T0, the "size" values stored by addPollMessage are < T0
-SInitF(prios, pinned) ==
+(* MessageMap::clear() + all definitions read again (reload): every message is a new instance, added in  *)
+(* definition order; g_lastPollOrder is a file-static and keeps its value                               *)
+ReloadF(s, prios, pinned) ==
   LET n == Len(prios)
+      blank == [s EXCEPT !.vec = <<>>, !.ord = TLCEval([m \in 1..n |-> 0]), !.prio = TLCEval([m \in 1..n |-> 0]),
+                         !.lp = TLCEval([m \in 1..n |-> 0]), !.used = TLCEval([m \in 1..n |-> FALSE])]
       RECURSIVE Load(_, _)
-      Load(s, i) == IF i > n THEN s
-                    ELSE Load(AddPollF([s EXCEPT !.prio[i] = prios[i], !.ord[i] = NewOrder(s, prios[i], pinned)], FALSE, i), i + 1) IN
-  Load([vec |-> <<>>, ord |-> TLCEval([m \in 1..n |-> 0]), prio |-> TLCEval([m \in 1..n |-> 0]), lp |-> TLCEval([m \in 1..n |-> 0]),
-        used |-> TLCEval([m \in 1..n |-> FALSE]), g |-> 0, now |-> T0], 1)
+      Load(x, i) == IF i > n THEN x
+                    ELSE Load(AddPollF([x EXCEPT !.prio[i] = prios[i], !.ord[i] = NewOrder(x, prios[i], pinned)], FALSE, i), i + 1) IN
+  Load(blank, 1)
+SInitF(prios, pinned) ==
+  LET n == Len(prios) IN
+  ReloadF([vec |-> <<>>, ord |-> TLCEval([m \in 1..n |-> 0]), prio |-> TLCEval([m \in 1..n |-> 0]), lp |-> TLCEval([m \in 1..n |-> 0]),
+           used |-> TLCEval([m \in 1..n |-> FALSE]), g |-> 0, now |-> T0], prios, pinned)
+(* clearing / reloading / destroying ANOTHER MessageMap instance (as MainLoop::m_newlyDefinedMessages on  *)
+(* every read/write -def): no effect on this map - it only shares the file-static g_lastPollOrder, which  *)
+(* no operation on another map changes                                                                    *)
+OtherClearF(s) == s
 
 (* normal form: orders relative to the global minimum, clock values as dense ranks                   *)
 MinOrd(s) == LET A == {s.ord[m] : m \in DOMAIN s.ord} \cup {s.g} IN CHOOSE x \in A : \A y \in A : x <= y
